@@ -295,6 +295,7 @@ func checkC13(c *Ctx) {
 		r.Count("variants:"+pkgShort(ri.Pkg)+" *"+ri.Suffix, len(ex.Variants))
 	}
 
+	c13DefUse(c)
 	// ---------------- R13d / R13f over all emitted lines (static per line)
 	type agg struct {
 		pos     string
@@ -590,4 +591,101 @@ func featureWord(suffix string) string {
 		return "oneof"
 	}
 	return strings.ReplaceAll(s, "_", "")
+}
+
+// c13DefUse: R13j — identifiers that an emitter composes from a descriptor value and constant text
+// (getXHeaders, xPathParams, xHandler …) must be declared under the same composition where they are used.
+func c13DefUse(c *Ctx) {
+	r := c.R
+	r.Rule("R13j", "composed identifiers (descriptor name + constant text) are declared as they are used", 4)
+	ep, _ := c.ServerRuntime()
+	runtimeNames := map[string]bool{}
+	if ep != nil {
+		for n := range ep.Funcs {
+			runtimeNames[n] = true
+		}
+		for _, n := range ep.Pkg.Scope().Names() {
+			runtimeNames[n] = true
+		}
+	}
+	for _, ri := range c.goUnitRoots() {
+		// deep mode: configuration structs built by helpers are followed, so that a name taken from
+		// such a struct has the provenance of the descriptor value it was copied from
+		ex := c.ExploreDeep(ri.Fn, 1, 8000)
+		bad := map[string]string{}
+		nUnits := 0
+		for _, v := range ex.Variants {
+			// protogen never hands out an empty GoName: variants that take the "name is empty" arm are infeasible
+			infeasible := false
+			for k, arm := range v.Dec {
+				if arm != 0 && strings.Contains(k, "isempty(") && strings.Contains(k, "GoName") {
+					infeasible = true
+				}
+			}
+			if infeasible {
+				continue
+			}
+			for _, u := range v.Units {
+				_, f, err := ParseUnit(u)
+				if err != nil {
+					continue
+				}
+				nUnits++
+				declared := map[string]bool{}
+				for _, d := range f.Decls {
+					switch x := d.(type) {
+					case *ast.FuncDecl:
+						if x.Recv == nil {
+							declared[x.Name.Name] = true
+						}
+					case *ast.GenDecl:
+						for _, sp := range x.Specs {
+							switch s := sp.(type) {
+							case *ast.ValueSpec:
+								for _, n := range s.Names {
+									declared[n.Name] = true
+								}
+							case *ast.TypeSpec:
+								declared[s.Name.Name] = true
+							}
+						}
+					}
+				}
+				for _, id := range f.Unresolved {
+					name := id.Name
+					if declared[name] || runtimeNames[name] || types.Universe.Lookup(name) != nil {
+						continue
+					}
+					locs := holeRe.FindAllStringIndex(name, -1)
+					if len(locs) == 0 {
+						continue
+					}
+					rest := holeRe.ReplaceAllString(name, "")
+					if rest == "" || rest == "_" {
+						continue // a bare descriptor name (message / enum / wrapper type from the .pb.go file)
+					}
+					// constant part present: must be declared in this unit under another composition?
+					sameRest := ""
+					for d := range declared {
+						if holeRe.MatchString(d) && holeRe.ReplaceAllString(d, "") == rest {
+							sameRest = d
+						}
+					}
+					if sameRest == "" {
+						continue // not declared in this unit in any composition (declared in a sibling unit)
+					}
+					k := fmt.Sprintf("%s *%s: %s…%s used, declared only with another descriptor value", pkgShort(ri.Pkg), ri.Suffix, "", rest)
+					if _, ok := bad[k]; !ok {
+						bad[k] = fmt.Sprintf("the unit uses an identifier composed as <descriptor value>+%q that it declares only under a different composition (%s vs %s) [raw: %s vs %s; decisions %s]: for descriptors where the two values differ (an RPC whose proto name is not its Go name, e.g. snake_case) the generated file refers to an undefined name", rest, holeFree(name), holeFree(sameRest), name, sameRest, v.DecString())
+					}
+				}
+			}
+		}
+		for _, k := range sortedKeys(bad) {
+			r.Bad("R13j", k, c.P.Pos(c.P.Decls[ri.Fn].Pos()), bad[k], nil)
+		}
+		if len(bad) == 0 && nUnits > 0 {
+			r.OK("R13j", pkgShort(ri.Pkg)+" *"+ri.Suffix+": composed identifiers resolve", "")
+		}
+	}
 }
